@@ -10,6 +10,7 @@
    C: one parked goroutine in "auto" mode is released; repeat).  The same procedure is implemented
    here on the model; the produced run is a list of events of [step].  No proofs in this file. *)
 From SV Require Import Model.Common Model.Reload.
+From SV Require Model.ReloadRecover.
 From Coq Require Import Arith.
 Local Open Scope nat_scope.
 
@@ -517,6 +518,7 @@ Definition run_case_C17 (c : case) : bytes :=
   | 0%N => run_scenario true c
   | 1%N => run_listener_trace c
   | 2%N => run_e2e c
+  | 3%N => ReloadRecover.run_recover c   (* recovery of the pipelines of queued chunks: Model/ReloadRecover.v *)
   | 9%N => run_scenario false c     (* the original NewSink (documentation of defect #13; never generated by the harness) *)
   | _ => bad_case_output
   end.
